@@ -5,7 +5,7 @@ from . import c01
 PROP = 'C04'
 LEVEL = 'exploration'
 INVARIANTS = ('commit_back', 'applied_back', 'not_majority', 'commit_conflict', 'committed_entry_changed', 'log_matching',
-              'leader_commit_old_term')
+              'leader_commit_old_term', 'sent_entry_not_in_log')
 RULE = ('one case = one seeded execution of a 2-5 voter cluster under the C01 schedule space (delays, fragmentation, resets, '
         'holds, partitions, compaction on or off as separate configurations, batch sizes down to 1 byte so that one '
         'append_entries carries fewer entries than the follower holds beyond prevLogIdx); the majority condition is evaluated '
